@@ -324,6 +324,13 @@ pub fn write_case(ctx: &mut Ctx, fl: Flavour, compressed: bool, frames: &[Vec<u8
         })),
     };
     let input = format!("udp.write {} {} {}", fl.tok(), mode_tok(compressed), join_hex(frames));
+    // independent of the encoder's own idea of a frame: every datagram is as long as its size byte says, one per packet
+    if let Some(g) = &got {
+        let bad = g.iter().find(|d| d.len() < 4 || (if compressed { d[0] as usize * 4 } else { d[0] as usize }) != d.len());
+        if bad.is_some() || g.len() != frames.len() {
+            ctx.violation(&format!("c08/write/{}/not-one-frame", fl.tok()), "a datagram does not hold exactly one frame (its length differs from what its size byte announces), or the number of datagrams differs from the number of packets written", &input, &format!("{} datagrams, each as long as its size byte says", frames.len()), &join_hex(g));
+        }
+    }
     if got.as_ref() != Some(&want) {
         ctx.violation(&format!("c08/write/{}/datagrams", fl.tok()), "a written packet did not leave as exactly one datagram holding exactly its frame", &input, &join_hex(&want), &format!("{:?}", got.map(|g| join_hex(&g))));
     }
